@@ -1014,6 +1014,79 @@ def error_capture(chk, main, ex):
         raise AnalysisError(
             "anchor vanished: try blocks around transpile/exec in "
             "execute_vyxal")
+    input_handling_total(chk, main, ex)
+
+
+# operations that cannot raise on the strings / lists of strings the input
+# section of execute_vyxal handles (vy_eval: contained by its own handlers,
+# decided by vy_eval_model)
+TOTAL_FUNCTIONS = {"str", "list", "tuple", "map", "len", "vy_eval", "repr",
+                   "reversed", "enumerate"}
+TOTAL_METHODS = {"split", "replace", "strip", "lstrip", "rstrip",
+                 "readlines", "splitlines", "read", "append", "copy",
+                 "lower", "upper", "startswith", "endswith"}
+
+
+def input_handling_total(chk, main, ex):
+    """Statements of execute_vyxal outside every try that handle the user's
+    inputs only apply operations that cannot raise on strings."""
+    if not any(a.arg == "inputs" for a in ex.args.args):
+        raise AnalysisError("anchor vanished: execute_vyxal(inputs)")
+    n = 0
+    imported = set()
+    for st in main.tree.body:
+        if isinstance(st, ast.Import):
+            imported |= {(a.asname or a.name).split(".")[0] for a in st.names}
+
+    def simple(stmts):
+        for st in stmts:
+            if isinstance(st, ast.Try):
+                continue
+            if isinstance(st, (ast.If, ast.For, ast.While, ast.With)):
+                hdr = [st.test] if isinstance(st, (ast.If, ast.While)) else \
+                    [st.iter] if isinstance(st, ast.For) else \
+                    [i.context_expr for i in st.items]
+                yield st, hdr
+                yield from simple(st.body)
+                yield from simple(getattr(st, "orelse", []))
+            else:
+                yield st, [st]
+
+    for st, parts in simple(ex.body):
+        if not any(isinstance(m, ast.Name) and m.id == "inputs"
+                   for p in parts for m in ast.walk(p)):
+            continue
+        for p in parts:
+            for c in ast.walk(p):
+                if not isinstance(c, ast.Call):
+                    continue
+                n += 1
+                if isinstance(c.func, ast.Name):
+                    ok = c.func.id in TOTAL_FUNCTIONS
+                    if ok and c.func.id == "map" and c.args:
+                        f = c.args[0]
+                        ok = isinstance(f, ast.Lambda) or (
+                            isinstance(f, ast.Name)
+                            and f.id in TOTAL_FUNCTIONS)
+                elif isinstance(c.func, ast.Attribute) and not isinstance(
+                        c.func.value, ast.Attribute) and not (
+                        isinstance(c.func.value, ast.Name)
+                        and c.func.value.id in imported):
+                    ok = c.func.attr in TOTAL_METHODS
+                else:
+                    ok = False
+                name = dotted(c.func) or ast.unparse(c.func)
+                chk.ob("C19.input-handling-cannot-raise",
+                       f"main.execute_vyxal/inputs:{name}", ok,
+                       f"the input-handling section applies {name}(...) to "
+                       "the user's inputs outside every try block; it can "
+                       "raise on some input text and the exception "
+                       "propagates out of execute_vyxal with the error "
+                       "record empty", main.rel, c.lineno,
+                       witness="an input line the operation rejects (a "
+                               "non-numeric string, a missing file name)")
+    chk.unit("calls in the input-handling section examined", n)
+    chk.floor("calls in the input-handling section examined", n, 4)
 
 
 def online_flag(chk, repo, main, ex, pkg):
